@@ -291,9 +291,13 @@ def plan_C12(prop, tier, seed, t0):
 
 def plan_C03(prop, tier, seed, t0):
     q = tier == "quick"
-    mcs = [dict(name="extract_q", module="MC_Extract.tla", cfg="MC_Extract_q.cfg", timeout=3000)]
+    mcs = [dict(name="extract_q", module="MC_Extract.tla", cfg="MC_Extract_q.cfg", timeout=3000),
+           # one deep circuit whose frontier needs Gaussian elimination, every firing order of the simplifier (vacuity: Gauss, gadget pivots, permutation all taken)
+           dict(name="extract_gauss1", module="MC_Extract.tla", cfg="MC_Extract_g1.cfg", timeout=3000, workers=6, actions=("DoGauss", "DoGadget", "DoPerm", "DoPrepare"))]
     if not q:
         mcs += [dict(name="extract_" + c, module="MC_Extract.tla", cfg=f"MC_Extract_{c}.cfg", timeout=5000) for c in ("c3", "f3", "flow3")]
+        mcs += [dict(name="extract_gauss1c", module="MC_Extract.tla", cfg="MC_Extract_g1c.cfg", timeout=3000, workers=6, actions=("DoGauss", "DoGadget")),
+                dict(name="extract_tmpl96", module="MC_Extract.tla", cfg="MC_Extract_g6.cfg", timeout=5000, workers=6, actions=("DoGadget", "DoPerm"))]
     T = dict(module="Trace_Extract.tla", cfg="Trace_Extract.cfg")
     cli = ["--quizx-bin", QUIZX_BIN, "--cli-every", 6 if q else 3]
     traces = [
